@@ -15,10 +15,13 @@ type LedgerConfig struct {
 	Templates, Defects             []string
 	PayAmts, Fees, Pay1, Sizes     []int
 	RevShifts, SFSplits            []int
+	WinStarts, WinLens             []int // default {0,1,2} / {1,2}
 	FormRH                         [][2]int
 	Invariants, Properties         []string
 	View                           bool
 	Focus                          bool
+	NoPost                         bool // do not record post-states in the behaviours (verdict-only replay)
+	EmitAll                        bool // exhaustive generation: print every behaviour that ends at the height bound or in a rejected block
 	EmitDepth                      int // > 0: print the behaviour when the trace reaches this length (generation)
 }
 
@@ -28,6 +31,13 @@ func ints(xs []int) string {
 		s = append(s, fmt.Sprint(x))
 	}
 	return "{" + strings.Join(s, ", ") + "}"
+}
+
+func orDefault(xs, d []int) []int {
+	if len(xs) == 0 {
+		return d
+	}
+	return xs
 }
 
 func strs(xs []string) string {
@@ -60,17 +70,21 @@ func (c LedgerConfig) Render() (module string, files map[string][]byte, cfg stri
 	fmt.Fprintf(&m, "Terminal == ms = NULL /\\ height >= MaxHeight /\\ (nrev >= MaxReverts \\/ undo = <<>>)\n")
 	// the simulator evaluates invariants on every candidate successor: print only from states that close a
 	// block (one successor per End / Revert), near the end of the trace
-	fmt.Fprintf(&m, "Emit == (ms = NULL /\\ hist # <<>> /\\ (Terminal \\/ TLCGet(\"level\") >= %d)) => PrintT(\"@@BEH \" \\o ToJson(hist))\n", c.EmitDepth-6)
+	if c.EmitAll {
+		fmt.Fprintf(&m, "Emit == (ms = NULL /\\ hist # <<>> /\\ (height >= MaxHeight \\/ hist[Len(hist)].verdict = \"reject\")) => PrintT(\"@@BEH \" \\o ToJson(hist))\n")
+	} else {
+		fmt.Fprintf(&m, "Emit == (ms = NULL /\\ hist # <<>> /\\ (Terminal \\/ TLCGet(\"level\") >= %d)) => PrintT(\"@@BEH \" \\o ToJson(hist))\n", c.EmitDepth-6)
+	}
 	m.WriteString("====\n")
 	files = map[string][]byte{"LedgerRun.tla": []byte(m.String())}
 	var b strings.Builder
 	b.WriteString("SPECIFICATION Spec\nCONSTANTS\n")
 	fmt.Fprintf(&b, "  Addrs = %s\n  MatDelay = %d\n  AllowH = %d\n  RequireH = %d\n  EphH = %d\n  FoundH = %d\n  Reward = %d\n", strs(c.Addrs), c.P.MatDelay, c.P.AllowH, c.P.RequireH, c.P.EphH, c.P.FoundH, c.P.Reward)
 	fmt.Fprintf(&b, "  MaxHeight = %d\n  MaxTxns = %d\n  MaxReverts = %d\n  GenSC <- R_GenSC\n  GenSF <- R_GenSF\n", c.MaxHeight, c.MaxTxns, c.MaxReverts)
-	fmt.Fprintf(&b, "  Templates = %s\n  Defects = %s\n  PayAmts = %s\n  Fees = %s\n  Pay1 = %s\n  Sizes = %s\n  FormRH <- R_FormRH\n  RevShifts = %s\n  SFSplits = %s\n  Focus = %s\n",
-		strs(c.Templates), strs(c.Defects), ints(c.PayAmts), ints(c.Fees), ints(c.Pay1), ints(c.Sizes), ints(c.RevShifts), ints(c.SFSplits), map[bool]string{true: "TRUE", false: "FALSE"}[c.Focus])
+	fmt.Fprintf(&b, "  Templates = %s\n  Defects = %s\n  PayAmts = %s\n  Fees = %s\n  Pay1 = %s\n  Sizes = %s\n  FormRH <- R_FormRH\n  RevShifts = %s\n  SFSplits = %s\n  Focus = %s\n  StopAfterReject = %s\n  HistPost = %s\n  WinStarts = %s\n  WinLens = %s\n",
+		strs(c.Templates), strs(c.Defects), ints(c.PayAmts), ints(c.Fees), ints(c.Pay1), ints(c.Sizes), ints(c.RevShifts), ints(c.SFSplits), map[bool]string{true: "TRUE", false: "FALSE"}[c.Focus], map[bool]string{true: "TRUE", false: "FALSE"}[c.EmitAll], map[bool]string{true: "TRUE", false: "FALSE"}[!c.NoPost], ints(orDefault(c.WinStarts, []int{0, 1, 2})), ints(orDefault(c.WinLens, []int{1, 2})))
 	inv := append([]string{}, c.Invariants...)
-	if c.EmitDepth > 0 {
+	if c.EmitDepth > 0 || c.EmitAll {
 		inv = append(inv, "Emit")
 	}
 	if len(inv) > 0 {
